@@ -890,8 +890,10 @@ class Xsd11ComplexType(XsdComplexType):
         if self.default_attributes_apply and \
                 isinstance(self.default_attributes, XsdAttributeGroup):
             if self.redefine is None:
-                for k in self.default_attributes:
-                    if k in self.attributes:
+                for k, v in self.default_attributes.items():
+                    if k in self.attributes and self.attributes[k] is not v:
+                        # not an error if it's the same attribute use, that the
+                        # type has inherited from a base type with default attributes
                         msg = _("default attribute {!r} is already "
                                 "declared in the complex type")
                         self.parse_error(msg.format(k))
